@@ -12,38 +12,38 @@ TRUST = ("Trusted base: CPython 3.12, NumPy, Hypothesis 6.168 and the harness's 
 CHECKS = {
     "C01": dict(
         technique="exhaustive enumeration of all pairings on <=N positions + Hypothesis-generated structures/strings against an independent reference decoder (round trip)",
-        text="Generated-input search: every partial matching on up to 8 (quick) / 11 (thorough) positions is enumerated completely, and thousands of larger knotted structures, 30-level ladders and balanced 30-type strings are drawn by Hypothesis; each produced notation is decoded by an independent 30-stack decoder and compared both ways (lost / invented pairs). Exhaustive below the bound, sampling above it - no proof.",
+        text="Generated-input search: every partial matching on up to 8 (quick) / 11 (thorough) positions is enumerated completely, and thousands of larger knotted structures, 30-level ladders and balanced 30-type strings are drawn by Hypothesis; each produced notation is decoded by an independent 30-stack decoder and compared both ways (lost / invented pairs). Exhaustive below the bound, sampling above it - no proof. Also every arrangement of 5 (thorough 6) one-pair stems, long structures of 30-120 stems (up to ~4000 nt), sequence alphabets with placeholder and lower-case letters, and the three from_file entry points.",
         note=TRUST + "Structures needing >30 levels are not generated. Exhaustive only for N<=8/11.",
         ref="3 C01"),
     "C02": dict(
         technique="exhaustive enumeration of pairings + Hypothesis structures against an independent exact optimiser (differential on scores)",
-        text="Generated-input search: all pairings on <=8/11 positions and thousands of drawn multi-stem knotted structures (incl. path/star conflict graphs); the produced notation's level assignment is read back with an independent stem finder and compared with an exact branch-and-bound optimum by score (never by string), plus properness, greedy stability, >= FCFS and round-brackets-only for knot-free input.",
+        text="Generated-input search: all pairings on <=8/11 positions and thousands of drawn multi-stem knotted structures (incl. path/star conflict graphs); the produced notation's level assignment is read back with an independent stem finder and compared with an exact branch-and-bound optimum by score (never by string), plus properness, greedy stability, >= FCFS and round-brackets-only for knot-free input. Also every arrangement of 5 (thorough 7) stems incl. unequal length patterns, ladders of up to 13 (thorough 20) mutually crossing stems (properness only above 10), long structures, the notations of the objects returned by without_isolated()/without_pseudoknots(), and convert_to_dot_bracket with scripted solvers that give up (proper and >= FCFS demanded).",
         note=TRUST + "Components above 10 stems are not checked for optimality. Only CBC is available as MILP back-end.",
         ref="3 C02"),
     "C03": dict(
         technique="corpus + Hypothesis-perturbed 3D structures against an independent O(n^2) three-valued geometric reference model (soundness, exclusivity, completeness)",
-        text="Generated-input search: whole corpus structures, rigidly moved / jittered / thinned copies and thousands of mini-structures of neighbouring residues whose members are moved independently so that every threshold (4.0 A, 50/130 deg, +-90 deg torsion) is crossed; each reported pair is justified by the harness's own donor/acceptor/edge tables and geometry, edge slots are checked for exclusivity and every pair of residues with >=2 certain base-to-base contacts must be reported or blocked.",
+        text="Generated-input search: whole corpus structures, rigidly moved / jittered / thinned copies and thousands of mini-structures of neighbouring residues whose members are moved independently so that every threshold (4.0 A, 50/130 deg, +-90 deg torsion) is crossed; each reported pair is justified by the harness's own donor/acceptor/edge tables and geometry, edge slots are checked for exclusivity and every pair of residues with >=2 certain base-to-base contacts must be reported or blocked. Mini-structures are also relabelled (insertion-code runs, descending numbers, reversed chains) and stripped to base fragments; STEERED pairs put one donor-acceptor distance at 4.0 A, one normal angle at 50/130 deg or the glycosidic torsion at 90 deg +- 1e-5..0.1 by construction.",
         note=TRUST + "Residue identity and one-letter names come from the residue-level reader. Margins of 1e-6 around every threshold are undecided.",
         ref="3 C03"),
     "C04": dict(
         technique="corpus + Hypothesis-perturbed 3D structures against an independent all-pairs geometric definition of stacking (both directions, three-valued)",
-        text="Generated-input search over the same 3D domains as C03; for all residue pairs the harness recomputes centroid distance, normal angle and offset angle with its own geometry and demands reported <=> defined (undecided within 1e-6), single report per pair, ordering and topology label family.",
+        text="Generated-input search over the same 3D domains as C03; for all residue pairs the harness recomputes centroid distance, normal angle and offset angle with its own geometry and demands reported <=> defined (undecided within 1e-6), single report per pair, ordering and topology label family. STEERED two-residue placements put centroid distance, normal angle or offset angle at 6 A / 35 deg / 45 deg +- 1e-5..1 by construction (parallel and antiparallel, either residue moved).",
         note=TRUST + "Directed reading of the offset criterion (vector from the later to the earlier residue; normals (N7-N9)x(N3-N9) / (C4-N1)x(O2-N1)) as implemented by the anchored code; see DESIGN C04.",
         ref="3 C04"),
     "C08": dict(
         technique="Hypothesis atom tables serialised by independent PDB/mmCIF emitters (round trip through the reader) + corpus files decoded by an independent column slicer / CIF tokenizer (differential)",
-        text="Generated-input search: generated multi-model / altloc / insertion-code / close-pair tables are written as PDB and as mmCIF (both null markers, optionally absent occupancies) and read with every model argument; corpus files (NMR ensembles, altloc files) are decoded independently. The returned residues and atoms must equal the expectation computed from the table: best-occupancy copy per name, one survivor of an isolated <0.5 A pair, file order, exact identities and coordinates, requested model only.",
+        text="Generated-input search: generated multi-model / altloc / insertion-code / close-pair tables are written as PDB and as mmCIF (both null markers, optionally absent occupancies) and read with every model argument; corpus files (NMR ensembles, altloc files) are decoded independently. The returned residues and atoms must equal the expectation computed from the table: best-occupancy copy per name, one survivor of an isolated <0.5 A pair, file order, exact identities and coordinates, requested model only. mmCIF is also written with non-contiguous model rows and as dialects (optional items left out, item order permuted, author-only / label-only identity); tables contain modified-nucleotide names, 5-digit serials and positions modelled as two differently named residues.",
         note=TRUST + "Well-formed input only; occupancy ties and clash clusters of >=3 atoms are checked by validity predicates, not exact expectation.",
         ref="3 C08"),
     "C09": dict(
         technique="Hypothesis atom tables through independent emitters: reader fidelity + four write/read round trips compared field by field via a neutral accessor; written PDB text decoded by an independent column slicer and matched against a record grammar",
-        text="Generated-input search: for each generated table (names with primes and leading digits, 1-2 letter / absent elements, charges, icodes, altlocs, negative values, several models and chains) the harness emits PDB and mmCIF itself, reads them with parse_*_atoms, runs PDB->PDB, mmCIF->mmCIF, PDB->mmCIF->PDB and mmCIF->PDB->mmCIF and compares all 16 logical fields and row order; every written PDB text must be 80-column, right-justified where the format says so, with MODEL/ENDMDL around every model and TER after every chain.",
+        text="Generated-input search: for each generated table (names with primes and leading digits, 1-2 letter / absent elements, charges, icodes, altlocs, negative values, several models and chains) the harness emits PDB and mmCIF itself, reads them with parse_*_atoms, runs PDB->PDB, mmCIF->mmCIF, PDB->mmCIF->PDB and mmCIF->PDB->mmCIF and compares all 16 logical fields and row order; every written PDB text must be 80-column, right-justified where the format says so, with MODEL/ENDMDL around every model and TER after every chain. mmCIF dialects (item order permuted, label_entity_id / auth_atom_id / auth_comp_id left out) are read and written too; the splitter command line is driven on generated files, also with atom ids that run on from model to model.",
         note=TRUST + "Only tables within PDB widths (the property's quantifier). Tolerance 5e-4 / 5e-3 on reals.",
         ref="3 C09"),
     "C10": dict(
         technique="Hypothesis atom tables pushed outside PDB limits + compact oversize constructions, against an independent feasibility decision and a renaming-invariant (functional, injective, order and field preserving) + write/read round trip",
-        text="Generated-input search: generated mmCIF/PDB-derived tables with multi-character chains, numbers >9999, serials >99999, insertion codes and several models, plus 62/63/70 chains, 9999/10000 residues per chain and (thorough) 100000 atoms. Feasible => returned table preserves rows, order and all non-identity fields, satisfies the limits, renames chains/residues one-to-one and round-trips through write_pdb/parse_pdb_atoms; infeasible => ValueError only; fitting input => unchanged.",
-        note=TRUST + "The grey zone between the two feasibility predicates is not generated.",
+        text="Generated-input search: generated mmCIF/PDB-derived tables with multi-character chains, numbers >9999, serials >99999, insertion codes and several models, plus 62/63/70 chains, 9999/10000 residues per chain and (thorough) 100000 atoms. Feasible => returned table preserves rows, order and all non-identity fields, satisfies the limits, renames chains/residues one-to-one and round-trips through write_pdb/parse_pdb_atoms; infeasible => ValueError only; fitting input => unchanged. Also sub-tables of a parsed table (mask / groupby), long ids on only some chains or only later models, ids / numbers exceeding a limit only in later models, an oversize chain whose residues share numbers (insertion codes), a near-limit table with chains in several runs (TER records counted per run), and the files written by `splitter -f PDB` and `unifier -f PDB`.",
+        note=TRUST + "The grey zone between the two feasibility predicates (TER records counted per run vs per change of chain) is not judged.",
         ref="3 C10"),
     "C11": dict(
         technique="corpus + Hypothesis-perturbed and multi-model 3D structures against list invariants and an independent BPh/BR / Saenger reference; exhaustive (base, base, LW) grid for the Saenger lookup",
@@ -52,63 +52,63 @@ CHECKS = {
         ref="3 C11"),
     "C05": dict(
         technique="metamorphic testing: Hypothesis-drawn rigid motions, atom-order permutations, order-preserving relabellings and PDB-vs-mmCIF re-serialisation of corpus structures; equality of the complete annotation, margin-gated by the reference model",
-        text="Generated-input search: each drawn transformation of a real structure must leave the whole result of extract_secondary_structure (all interaction kinds, BPSEQ, dot-bracket, extended dot-bracket, elements; with and without gap detection) unchanged up to the drawn renaming. A difference counts only when every decision quantity is farther than 1e-6 from its threshold (measured with the independent reference model). Sampling of motions - no proof of invariance.",
+        text="Generated-input search: each drawn transformation of a real structure must leave the whole result of extract_secondary_structure (all interaction kinds, BPSEQ, dot-bracket, extended dot-bracket, elements; with and without gap detection) unchanged up to the drawn renaming. A difference counts only when every decision quantity is farther than 1e-6 from its threshold (measured with the independent reference model). Sampling of motions - no proof of invariance. The PDB/mmCIF relation is also taken after axis rotations and translations that fill the PDB coordinate columns; renumbering also maps onto shared numbers with insertion codes under author-only identities.",
         note=TRUST + "Only transformations applied through unmodified code count. The PDB/mmCIF relation compares two harness-emitted files of the same atoms.",
         ref="3 C05"),
     "C06": dict(
         technique="corpus structures x Hypothesis-drawn pair lists (duplicates, reversed duplicates, conflicts, multiplets, dangling entries, gap detection on/off, both entry points) against a reference mapping and the independent dot-bracket decoder",
-        text="Generated-input search: for each drawn list over a real structure's nucleotides the derived BPSEQ is checked for numbering, letters and gap placeholders, symmetry, one partner, canonical provenance and retention of conflict-free canonical pairs; per-strand dot-bracket text (optimal and every member of all_dot_brackets) must concatenate to that sequence and decode to exactly that matching; the extended rows must be balanced, full-length and encode each distinct input pair of each class exactly once.",
+        text="Generated-input search: for each drawn list over a real structure's nucleotides the derived BPSEQ is checked for numbering, letters and gap placeholders, symmetry, one partner, canonical provenance and retention of conflict-free canonical pairs; per-strand dot-bracket text (optimal and every member of all_dot_brackets) must concatenate to that sequence and decode to exactly that matching; the extended rows must be balanced, full-length and encode each distinct input pair of each class exactly once. Structures are also relabelled: chains cut into pieces whose names may come back after another chain (A, B, A), number offsets, dropped residues.",
         note=TRUST + "Nucleotide classification and one-letter names come from the reader. A class is compared up to orientation (cWH == cHW seen from the other residue).",
         ref="3 C06"),
     "C07": dict(
         technique="exhaustive enumeration of pairings + Hypothesis structures against a reference decomposition (validity + coverage predicates)",
-        text="Generated-input search over all pairings on <=8/11 positions and drawn structures up to ~150 nt; stems and hairpins are compared as sets with an independent decomposition, loops are checked by a validity predicate (closed cycle, paired ends, unpaired interiors), coverage of every unpaired nucleotide exactly once, and every strand's text against slices.",
+        text="Generated-input search over all pairings on <=8/11 positions and drawn structures up to ~150 nt; stems and hairpins are compared as sets with an independent decomposition, loops are checked by a validity predicate (closed cycle, paired ends, unpaired interiors), coverage of every unpaired nucleotide exactly once, and every strand's text against slices. Also every arrangement of 5 (thorough 6) one-pair stems (spaced and dense), ladders of 2-8 (10) mutually crossing stems of 1-4 pairs (letter brackets), and long structures up to ~3000 nt.",
         note=TRUST + "Interior of a strand is defined as its positions other than its paired end nucleotides.",
         ref="3 C07"),
     "C12": dict(
         technique="Hypothesis rule-based state machine: every call history compared step by step with fresh objects + snapshot invariant",
-        text="Stateful generated search: call sequences (<=6 quick / <=8 thorough) over the nine public queries/derivations on a source structure and on objects derived from it; after every step the answer must equal that of a fresh object and every live object must still equal its snapshot; removal semantics come from an independent stem finder / decoder.",
+        text="Stateful generated search: call sequences (<=6 quick / <=10 thorough) over the nine public queries/derivations on a source structure and on objects derived from it; after every step the answer must equal that of a fresh object and every live object must still equal its snapshot; removal semantics come from an independent stem finder / decoder. A further rule adds a relettered twin (same pairing, other letters) as an independent live object, and convert_to_dot_bracket(CBC) is one of the calls.",
         note=TRUST + "History length is bounded; solver ties (equal score, lossless) would be tolerated for dot_bracket only.",
         ref="3 C12"),
     "C13": dict(
         level="fault_enumeration",
         technique="fault injection at the PuLP API boundary: complete configuration x behaviour grid per generated structure + drawn fault sequences, against the lossless/FCFS/optimal oracles",
-        text="For each generated knotted structure the 15-cell grid {HiGHS selected, CBC selected} x {ok, ok with near-integral variable values, raises PulpSolverError, NotSolved, Infeasible, Unbounded, Undefined} + {no solver} is enumerated completely through both entry points, then a drawn 1-4 step fault sequence runs on one shared solver object. Faults are injected by replacing pulp.HiGHS_CMD / pulp.LpSolverDefault from the harness.",
+        text="For each generated knotted structure the 15-cell grid (plus 21 cells with both back-ends present) {HiGHS selected, CBC selected} x {ok, ok with near-integral variable values, raises PulpSolverError, NotSolved, Infeasible, Unbounded, Undefined} + {no solver} is enumerated completely through both entry points, then a drawn 1-4 step fault sequence runs on one shared solver object. Faults are injected by replacing pulp.HiGHS_CMD / pulp.LpSolverDefault from the harness.",
         note=TRUST + "HiGHS itself is absent from the sandbox: the 'HiGHS selected' cell is a scripted stand-in, so the selection/fallback logic is exercised, not HiGHS. Only the listed fault behaviours are injected.",
         ref="3 C13"),
     "C14": dict(
         technique="metamorphic differential across fresh interpreters with different PYTHONHASHSEED values and repeated in-process calls (SHA-256 of every output artefact)",
-        text="Generated-input search over configurations: each corpus file and each Hypothesis-drawn multi-component knotted structure is processed in a fresh interpreter per sampled hash seed, twice per interpreter; digests of all output artefacts (interaction lists, JSON, CSV, BPSEQ, dot-bracket, extended, ordered all-dot-brackets, elements, CLI output, written PDB/mmCIF) must coincide. Sampling of hash seeds - no proof of seed independence.",
+        text="Generated-input search over configurations: each corpus file and each Hypothesis-drawn multi-component knotted structure is processed in a fresh interpreter per sampled hash seed, twice per interpreter; digests of all output artefacts (interaction lists, JSON, CSV, BPSEQ, dot-bracket, extended, ordered all-dot-brackets, elements, CLI output, written PDB/mmCIF) must coincide. Sampling of hash seeds - no proof of seed independence. Further input families: corpus structures re-emitted with non-standard, thinned residues (name guessing and its ties), drawn pair lists mapped onto structures, and sibling inputs (one molecule, two coordinate sets) processed in one interpreter in both orders; the stdout of clashfinder / motif_extractor and the files of splitter are among the artefacts.",
         note=TRUST + "4 (quick) / 8 (thorough) hash seeds are sampled; the 'random' seed is replaced by a VERIF_SEED-derived value to keep runs reproducible.",
         ref="3 C14"),
     "C17": dict(
         technique="corpus + Hypothesis residue sets with planted near-threshold contacts, all 32 option combinations enumerated per structure, against an all-pairs reference; CLI report and CSV parsed and cross-checked",
-        text="Generated-input search over inputs and exhaustive over configurations: for every structure all 32 option sets are evaluated and the listed pairs compared both ways with a brute-force enumeration (typed radii, +0.5 A MolProbity margin, filters, occupancy rule, each pair once, occupancy sums). The command-line tool is run on harness-written mmCIF files; its per-residue and per-chain maxima, atom lines and CSV rows are parsed and must agree with each other and with the definition.",
+        text="Generated-input search over inputs and exhaustive over configurations: for every structure all 32 option sets are evaluated and the listed pairs compared both ways with a brute-force enumeration (typed radii, +0.5 A MolProbity margin, filters, occupancy rule, each pair once, occupancy sums). The command-line tool is run on harness-written mmCIF files; its per-residue and per-chain maxima, atom lines and CSV rows are parsed and must agree with each other and with the definition. Generated residues may share a position (two differently named residues at one chain/number), planted contacts sit at the vdW sum +- 1e-4..0.6.",
         note=TRUST + "Residue3D.is_nucleotide is taken as the definition of 'nucleic acid'. Distances within 1e-6 of the limit are undecided.",
         ref="3 C17"),
     "C18": dict(
         technique="constructive generator (points built from a prescribed dihedral) + metamorphic relations (reversal, mirror, rigid motion) + differential v1 vs v2 + corpus torsions against an independent projection formula",
-        text="Generated-input search: ~17k (quick) / ~1M (thorough) quadruples built in internal coordinates so that the IUPAC dihedral is known by construction, then rigidly moved; both implementations, the Atom wrapper, Residue3D.chi/chi_class and the tertiary_v2 torsion table (corpus files) are compared with the prescribed value / an independent formula. The v2 sign inversion is a recorded known finding (exact signature); everything else about v2 and all of v1 is checked without exclusion.",
+        text="Generated-input search: ~17k (quick) / ~1M (thorough) quadruples built in internal coordinates so that the IUPAC dihedral is known by construction, then rigidly moved; both implementations, the Atom wrapper, Residue3D.chi/chi_class and the tertiary_v2 torsion table (corpus files) are compared with the prescribed value / an independent formula. The v2 sign inversion is a recorded known finding (exact signature); everything else about v2 and all of v1 is checked without exclusion. Every cell of the tertiary_v2 torsion table is checked for definedness (a number where a defining atom is missing is a wrong value), chi of modified residues in the table against the nitrogen actually bonded to C1', and Residue3D.chi under lower-case / N / ? / X one-letter names.",
         note=TRUST + "Bond angles 20-160 deg, lengths 0.8-2.5 A as the quantifier states; tolerance 1e-7 rad; chi_class is checked only in the uncontroversial anti / syn regions.",
         ref="3 C18"),
     "C15": dict(
         technique="differential testing: generated atom tables serialised by independent emitters in both formats and read by both reader generations (4 readings) + single-conformer corpus files; keyed comparison, connectivity and |chi| against harness geometry",
-        text="Generated-input search: each generated altloc-free table (with P atoms planted at 1.6-3.0 A from the previous O3', on both sides of 2.4 A) is written as PDB and mmCIF and read by the residue-level and the table-level reader; residue keys, names, atom multisets and coordinates must agree among the four readings and with the table, is_connected of both object models with the harness's distance test, connected segments with the implied segmentation, and |chi| between the two torsion implementations and the two formats.",
+        text="Generated-input search: each generated altloc-free table (with P atoms planted at 1.6-3.0 A from the previous O3', on both sides of 2.4 A) is written as PDB and mmCIF and read by the residue-level and the table-level reader; residue keys, names, atom multisets and coordinates must agree among the four readings and with the table, is_connected of both object models with the harness's distance test, connected segments with the implied segmentation, and |chi| between the two torsion implementations and the two formats. Tables also contain complete nucleotides under modified / force-field names, and the mmCIF side is also written as a dialect (optional items left out, item order permuted, author-only or label-only identity).",
         note=TRUST + "Tables avoid atoms closer than 0.6 A (the 0.5 A clash filter of the residue-level reader is C08's subject). Residue order is not compared.",
         ref="3 C15"),
     "C16": dict(
         technique="exhaustive enumeration of pairings + Hypothesis structures against an independent enumeration of greedy-stable colourings (set equality)",
-        text="Generated-input search: for all pairings on <=8/11 positions and drawn structures with components of <=6/8 stems, the produced list is compared as a set of per-stem level vectors with the product of all Grundy (greedy-stable) proper colourings computed without permutations; also no repetition, contains optimal and FCFS, singleton for knot-free.",
+        text="Generated-input search: for all pairings on <=8/11 positions and drawn structures with components of <=6/8 stems, the produced list is compared as a set of per-stem level vectors with the product of all Grundy (greedy-stable) proper colourings computed without permutations; also no repetition, contains optimal and FCFS, singleton for knot-free. Also every arrangement of 5-6 (thorough 7) one-pair stems, chains and stars of 7-8 (9) stems, every four-stem pattern repeated twice (three times) with 0-8 hairpins in between, and the 3D entry point Mapping2D3D.all_dot_brackets over relabelled corpus structures.",
         note=TRUST + "Components above 8 stems are outside the property's quantifier and are not generated.",
         ref="3 C16"),
     "C19": dict(
         technique="exhaustive enumeration of all labels up to length 5/6 over the FR3D alphabet against a three-valued reference classifier + Hypothesis-generated listings and DSSR documents against a line-by-line / entry-by-entry reference import + atheris (libFuzzer) coverage-guided fuzzing of the listing import with the oracle inside the target",
-        text="Generated-input search: the label space over the 19-symbol FR3D alphabet is enumerated completely up to length 5 (2.6M, quick) or 6 (49M, thorough) and every classification compared with a reference written from the statement (open cases accept either reading); generated listings mix valid lines, near misses and garbage and must import without raising, one interaction per line with two well-formed unit ids, exact identities, correct list and class, file order; generated single-/multi-model DSSR documents must keep exactly the resolvable valid pairs and consecutive resolvable stack members.",
+        text="Generated-input search: the label space over the 19-symbol FR3D alphabet is enumerated completely up to length 5 (2.6M, quick) or 6 (49M, thorough) and every classification compared with a reference written from the statement (open cases accept either reading); generated listings mix valid lines, near misses and garbage and must import without raising, one interaction per line with two well-formed unit ids, exact identities, correct list and class, file order; generated single-/multi-model DSSR documents must keep exactly the resolvable valid pairs and consecutive resolvable stack members. Listings also carry separator-like and non-ASCII characters inside fields; every DSSR case runs on its own short-lived structure object; adapter.main is driven on corpus structures with generated listings and its JSON compared with the listing oracle.",
         note=TRUST + "Python-int leniency in unit-id numbers is kept out of the generator. The atheris tier (empty and seeded corpus) needs the atheris wheel installed by setup.sh into /verif/.deps; if absent the tier is skipped with a note.",
         ref="3 C19"),
     "C20": dict(
         technique="Hypothesis mmCIF documents written by the harness + corpus files, before/after comparison through an independent CIF tokenizer; CLI run in-process and compared byte-wise with the library result",
-        text="Generated-input search: for generated multi-category documents (quoted, multi-word, text-block and null values) and real files, copy/replace operations on present, absent and new items must change exactly the target column, keep every other category, item, row and row order, return the first-seen injective mapping, leave the text byte-identical when the category or source item is absent, and the command-line tool must write exactly the library's result.",
+        text="Generated-input search: for generated multi-category documents (quoted, multi-word, text-block and null values) and real files, copy/replace operations on present, absent and new items must change exactly the target column, keep every other category, item, row and row order, return the first-seen injective mapping, leave the text byte-identical when the category or source item is absent, and the command-line tool must write exactly the library's result. Documents may have several data blocks (the edited category may recur in another block) and the tool is also run in place (output path = input path).",
         note=TRUST + "Documents are pre-filtered by a plain IoAdapterPy read/write self-check so that limitations of the mmcif package are not blamed on rnapolis. Alphabets have distinct characters and suffice for the number of distinct values.",
         ref="3 C20"),
 }
